@@ -188,6 +188,13 @@ int main(int argc, char **argv) {
 			}
 			outf("%s none\n", tag);
 		}
+		else if (!strcmp(cmd, "discard")) {
+			uint8_t *m;
+			for (;;) {
+				m = a[0][0] == 'q' ? bidib_read_message() : a[0][0] == 'e' ? bidib_read_error_message() : bidib_read_intern_message();
+				if (!m) break; free(m);
+			}
+		}
 		else if (ext_command(cmd, a, na, bytes, sizeof bytes)) { /* handled */ }
 		else { outf("unknown-command %s\n", cmd); }
 	}
